@@ -77,8 +77,13 @@ class OutputSuppressionContext:
         for fd in (0, 1, 2):
             with contextlib.suppress(OSError):
                 self._saved_fds[fd] = os.dup(fd)
-        sys.stdout = self._null_file
-        sys.stderr = self._null_file
+        cls = OutputSuppressionContext
+        if cls._null_file.closed:
+            # A previously executed SUT closed the shared file (``sys.stdout.close()``);
+            # without a fresh one every later ``print`` of the SUT raises ``ValueError``.
+            cls._null_file = open(os.devnull, mode="w")  # noqa: PLW1514, PTH123, SIM115
+        sys.stdout = cls._null_file
+        sys.stderr = cls._null_file
 
     def __exit__(self, exc_type, exc_val, exc_tb) -> None:
         self.restore()
